@@ -188,6 +188,12 @@ def run(tier):
     rng = random.Random(C.seed())
     m1 = C.tlc_model_check("Prefs", "MC_Prefs_intended.cfg", wd, workers=8, timeout=600, required_actions=("SetPreference", "SetMathML"))
     asb = C.run_tlc("Prefs", "MC_Prefs_asbuilt519.cfg", wd, workers=4, timeout=300, coverage=False)
+    # the derived number separators (Separators.tla): they follow DecimalSeparator / Language in every order; the guard slip
+    # (recompute only when the OLD value is Auto) is refuted
+    msep = C.tlc_model_check("Separators", "MC_Separators_intended.cfg", wd, workers=2, timeout=300, coverage=False)
+    dsep = C.run_tlc("Separators", "MC_Separators_dev_guard.cfg", wd, workers=2, timeout=300, coverage=False)
+    if dsep["violation"] not in ("ExplicitMarkWins", "AutoFollowsLanguage", "LastValueWins"):
+        raise C.ToolError(f"Separators.tla: the guard deviation is not refuted by TLC ({dsep['violation']}, {dsep['error']})")
     if asb["error"] or not asb["violation"]:
         raise C.ToolError(f"the as-built dispatch of the pinned commit is not refuted by TLC: {asb['error']}")
     names = S.pref_names()
